@@ -1,3 +1,134 @@
 import Driver.Common
--- stub driver for C11 (replaced when the property's model is built)
-def main (args : List String) : IO UInt32 := Driver.main' (fun _ => "bad-op") (fun _ _ => "fail bad-op") args
+import GilVerif.Model.C11
+open Driver GilVerif.Model.C11
+
+/-
+  op line:   <fmt> <entry> <dev> <dst> <x0> <y0> <dw> <dh> <vw> <vh> <hex bytes | ->
+  (see harness/C11/main.cpp for the observation format)
+-/
+
+def hexVal (c : Char) : Option Nat :=
+  if '0' ≤ c ∧ c ≤ '9' then some (c.toNat - '0'.toNat)
+  else if 'a' ≤ c ∧ c ≤ 'f' then some (c.toNat - 'a'.toNat + 10)
+  else if 'A' ≤ c ∧ c ≤ 'F' then some (c.toNat - 'A'.toNat + 10)
+  else none
+
+def unhex (s : String) : Option (List UInt8) :=
+  if s == "-" then some [] else
+  let rec go : List Char → List UInt8 → Option (List UInt8)
+    | [], acc => some acc.reverse
+    | a :: b :: rest, acc =>
+      match hexVal a, hexVal b with
+      | some x, some y => go rest (UInt8.ofNat (x * 16 + y) :: acc)
+      | _, _ => none
+    | _, _ => none
+  go s.toList []
+
+def fnv (xs : List Nat) (fill : Nat) : UInt64 :=
+  xs.foldl (fun h b => (h ^^^ (UInt64.ofNat (if b > 255 then fill else b))) * 1099511628211) 14695981039346656037
+
+def hex64 (v : UInt64) : String :=
+  let ds := (Nat.toDigits 16 v.toNat)
+  String.ofList (List.replicate (16 - ds.length) '0' ++ ds)
+
+structure Op where
+  fmt : Fmt
+  fmtName : String
+  dev : Dev
+  st : Settings
+  bytes : List UInt8
+
+def parseOp (line : String) : Option Op :=
+  match words line with
+  | [fmt, entry, dev, dst, x0, y0, dw, dh, vw, vh, hex] =>
+    let f? : Option Fmt := match fmt with | "bmp" => some .bmp | "pnm" => some .pnm | "tga" => some .tga | _ => none
+    let e? : Option Entry := match entry with
+      | "info" => some .info | "image" => some .image | "view" => some .view | "conv" => some .conv | "scan" => some .scan | _ => none
+    let d? : Option Dev := match dev with | "name" => some .file | "file" => some .file | "stream" => some .stream | _ => none
+    let t? : Option Dst := match dst with
+      | "rgb8" => some .rgb8 | "rgba8" => some .rgba8 | "gray8" => some .gray8 | "gray1" => some .gray1 | "-" => some .none | _ => none
+    match f?, e?, d?, t?, ints [x0, y0, dw, dh, vw, vh], unhex hex with
+    | some f, some e, some d, some t, some [x0, y0, dw, dh, vw, vh], some bytes =>
+      some { fmt := f, fmtName := fmt, dev := d, bytes := bytes,
+             st := { entry := e, dst := t, x0 := x0, y0 := y0, dw := dw, dh := dh, vw := vw, vh := vh } }
+    | _, _, _, _, _, _ => none
+  | _ => none
+
+def infoFields (f : Fmt) (h : List Int) : String :=
+  let g (k : Nat) : String := toString (h.getD k 0)
+  match f with
+  | .bmp => s!"{g 0} {g 1} bpp={g 2} comp={g 3} off={g 4} hdr={g 5} colors={g 6} topdown={g 7}"
+  | .pnm => s!"{g 0} {g 1} type={g 2} max={g 3}"
+  | .tga => s!"{g 0} {g 1} bpp={g 2} type={g 3} off={g 4} desc={g 5} cmt={g 6} cml={g 7}"
+
+/-- observation of one read, without the extension suffix; mirrors what the harness prints -/
+def observe1 (o : Op) (bytes : List UInt8) : String :=
+  match runRaw o.fmt o.dev bytes o.st with
+  | .ok (img, _) =>
+    match o.st.entry with
+    | .info => "ok " ++ infoFields o.fmt img.hdr
+    | .scan => "ok " ++ showInts img.hdr ++ " " ++ hex64 (fnv img.pix 0)
+    | _ =>
+      let (fa, fb) := if o.st.dst == .gray1 then (0, 1) else (0xBE, 0x41)
+      "ok " ++ showInts img.hdr ++ " " ++ hex64 (fnv img.pix fa) ++ " " ++ hex64 (fnv img.pix fb)
+  | .error (.err k) => "err:" ++ k
+  | .error (.ub site _) =>
+    if site.startsWith "assert@" then site
+    else if site.startsWith "uninit@" then "nondet:" ++ site
+    else "ub:" ++ site
+  | .error (.hang _) => "timeout"
+
+def ext (b : UInt8) : List UInt8 := List.replicate 4096 b
+
+def observe (o : Op) : String :=
+  let r := observe1 o o.bytes
+  if r.startsWith "ok " then
+    let r0 := observe1 o (o.bytes ++ ext 0)
+    let r1 := observe1 o (o.bytes ++ ext 255)
+    r ++ (if r0 == r && r1 == r then " ext=same" else " ext=differs")
+  else r
+
+def model (line : String) : String :=
+  match parseOp line with
+  | some o => observe o
+  | none => "bad-op"
+
+/-- why the model thinks this input is unsafe (empty if it does not) -/
+def diagnosis (o : Op) : String :=
+  match decode o.fmt o.dev o.bytes o.st with
+  | .ub site why => " [" ++ site ++ ": " ++ why ++ "]"
+  | .hang why => " [hang: " ++ why ++ "]"
+  | _ => ""
+
+/-- BMP RLE files may legitimately leave pixels untouched (delta / early end-of-bitmap escapes) -/
+def isBmpRle (o : Op) : Bool :=
+  o.fmt == .bmp &&
+  match runRaw .bmp o.dev o.bytes { o.st with entry := .info } with
+  | .ok (img, _) => (img.hdr.getD 3 0 == 1 || img.hdr.getD 3 0 == 2)
+  | _ => false
+
+/-- the Spec of C11 evaluated on the implementation's observation -/
+def judge (op obs : String) : String :=
+  match parseOp op with
+  | none => "fail bad-op"
+  | some o =>
+    let ws := words obs
+    match ws with
+    | [] => "fail no-observation"
+    | w0 :: rest =>
+      if w0 == "timeout" then "fail terminates" ++ diagnosis o
+      else if w0.startsWith "ub:" || w0.startsWith "assert@" || w0.startsWith "abort@" || w0.startsWith "crash:" then
+        "fail no-undefined-behaviour" ++ diagnosis o
+      else if w0.startsWith "err:" then "ok"
+      else if w0 == "ok" then
+        if rest.getLast? == some "ext=differs" then "fail short-read-used-as-data" ++ diagnosis o
+        else
+          match o.st.entry with
+          | .info | .scan => "ok"
+          | _ =>
+            -- ok w h hashA hashB ext=..
+            if rest.length ≥ 4 && rest.getD 2 "" ≠ rest.getD 3 "" && !isBmpRle o then "fail unwritten-pixels-returned" ++ diagnosis o
+            else "ok"
+      else "fail unknown-observation"
+
+def main (args : List String) : IO UInt32 := Driver.main' model judge args
